@@ -35,7 +35,7 @@ RELS = ["permute", "rigid_exact", "rotate", "shift_scale", "removed", "structure
 
 def generate(tier, seed):
     rng = np.random.default_rng([seed, 9])
-    n = {"quick": 120, "thorough": 1200}[tier]
+    n = {"quick": 120, "thorough": 8000}[tier]
     cases = []
     for rep in range(n):
         for r in RELS:
